@@ -1,7 +1,54 @@
 //! Projection of sqlparser's AST to the abstract statement shape of coq/Route/Model.v
 //! (exactly the fields pgcat's `infer` inspects plus the ones the property speaks about).
+//!
+//! Per statement: {"k": "start"} | {"k": "query", "q": Q} | {"k": "other", "name": ..},
+//! plus two summary flags computed by an independent walk (sqlparser's own `Visitor` over the
+//! whole statement): "any_lock" (some Query node anywhere has a locking clause) and "any_mut"
+//! (some Query node anywhere has an Insert/Update body or a SELECT .. INTO arm).
+//! Q = {"locks": bool, "with": [Q..], "subs": [Q..], "body": B}
+//!     with: the CTE queries; subs: every other Query node that is a direct child of this one
+//!     in sqlparser's visitor order and is neither a CTE nor a parenthesised arm of the body
+//!     (derived tables, scalar/EXISTS/IN sub-queries, sub-queries in VALUES rows, ORDER BY,
+//!     LIMIT, ...).  with + subs + the "nested" arms of B are exactly the direct children.
+//! B = {"b": "select", "into": bool} | {"b": "nested", "q": Q} | {"b": "setop", "l": B, "r": B}
+//!   | {"b": "values"} | {"b": "insert"} | {"b": "update"} | {"b": "table"}
 use serde_json::{json, Value};
-use sqlparser::ast::{Query, SetExpr, Statement};
+use sqlparser::ast::{Query, SetExpr, Statement, Visit, Visitor};
+use std::ops::ControlFlow;
+
+/// Collects the projection of every direct child Query of the visited Query that is not
+/// listed as structural (CTE / parenthesised body arm).
+struct DirectChildren {
+    depth: usize,
+    structural: Vec<*const Query>,
+    out: Vec<Value>,
+}
+
+impl Visitor for DirectChildren {
+    type Break = ();
+    fn pre_visit_query(&mut self, q: &Query) -> ControlFlow<()> {
+        if self.depth == 1 && !self.structural.contains(&(q as *const Query)) {
+            self.out.push(query(q));
+        }
+        self.depth += 1;
+        ControlFlow::Continue(())
+    }
+    fn post_visit_query(&mut self, _q: &Query) -> ControlFlow<()> {
+        self.depth -= 1;
+        ControlFlow::Continue(())
+    }
+}
+
+fn nested_arms(b: &SetExpr, acc: &mut Vec<*const Query>) {
+    match b {
+        SetExpr::Query(q) => acc.push(&**q as *const Query),
+        SetExpr::SetOperation { left, right, .. } => {
+            nested_arms(left, acc);
+            nested_arms(right, acc);
+        }
+        _ => {}
+    }
+}
 
 fn body(b: &SetExpr) -> Value {
     match b {
@@ -16,11 +63,22 @@ fn body(b: &SetExpr) -> Value {
 }
 
 pub fn query(q: &Query) -> Value {
+    let mut structural: Vec<*const Query> = vec![];
     let ctes: Vec<Value> = match &q.with {
-        Some(w) => w.cte_tables.iter().map(|c| query(&c.query)).collect(),
+        Some(w) => w
+            .cte_tables
+            .iter()
+            .map(|c| {
+                structural.push(&*c.query as *const Query);
+                query(&c.query)
+            })
+            .collect(),
         None => vec![],
     };
-    json!({"locks": !q.locks.is_empty(), "with": ctes, "body": body(&q.body)})
+    nested_arms(&q.body, &mut structural);
+    let mut v = DirectChildren { depth: 0, structural, out: vec![] };
+    let _ = q.visit(&mut v);
+    json!({"locks": !q.locks.is_empty(), "with": ctes, "subs": v.out, "body": body(&q.body)})
 }
 
 fn stmt_name(s: &Statement) -> String {
@@ -28,12 +86,53 @@ fn stmt_name(s: &Statement) -> String {
     d.split(|c: char| !c.is_alphanumeric()).next().unwrap_or("").to_string()
 }
 
+/// Independent summary of a whole statement (every Query node at any depth, wherever it sits).
+struct Flags {
+    any_lock: bool,
+    any_mut: bool,
+}
+
+fn setexpr_mut(b: &SetExpr) -> bool {
+    match b {
+        SetExpr::Insert(_) | SetExpr::Update(_) => true,
+        SetExpr::Select(s) => s.into.is_some(),
+        SetExpr::SetOperation { left, right, .. } => setexpr_mut(left) || setexpr_mut(right),
+        // SetExpr::Query is a Query node of its own: the visitor reaches it.
+        _ => false,
+    }
+}
+
+impl Visitor for Flags {
+    type Break = ();
+    fn pre_visit_query(&mut self, q: &Query) -> ControlFlow<()> {
+        if !q.locks.is_empty() {
+            self.any_lock = true;
+        }
+        if setexpr_mut(&q.body) {
+            self.any_mut = true;
+        }
+        ControlFlow::Continue(())
+    }
+}
+
+pub fn flags(s: &Statement) -> (bool, bool) {
+    let mut f = Flags { any_lock: false, any_mut: false };
+    let _ = s.visit(&mut f);
+    (f.any_lock, f.any_mut)
+}
+
 pub fn project(ast: &Vec<Statement>) -> Vec<Value> {
     ast.iter()
-        .map(|s| match s {
-            Statement::StartTransaction { .. } => json!({"k": "start"}),
-            Statement::Query(q) => json!({"k": "query", "q": query(q)}),
-            other => json!({"k": "other", "name": stmt_name(other)}),
+        .map(|s| {
+            let mut v = match s {
+                Statement::StartTransaction { .. } => json!({"k": "start"}),
+                Statement::Query(q) => json!({"k": "query", "q": query(q)}),
+                other => json!({"k": "other", "name": stmt_name(other)}),
+            };
+            let (l, m) = flags(s);
+            v["any_lock"] = json!(l);
+            v["any_mut"] = json!(m);
+            v
         })
         .collect()
 }
